@@ -197,6 +197,10 @@ impl Gen {
                 let (p, names) = loop {
                     let (p, mut names) = match rng.below(3) { 0 => patterns::dewey(rng), 1 => patterns::glob(rng), _ => patterns::brace(rng) };
                     while names.len() < 2 { names.push(patterns::mutate_name(rng, &p)); }
+                    // (a pattern nested hundreds of braces deep costs the specification seconds per
+                    // match; those are matched once each by the patbrace and hostile drivers, not
+                    // fourteen times in a reduction history)
+                    if p.matches('{').count() > 64 { continue; }
                     if versions::max_digit_run(&p) <= 18 && names.iter().all(|n| versions::max_digit_run(n) <= 18) {
                         break (p, names);
                     }
